@@ -97,6 +97,13 @@ class CSSMediaRule(cssrule.CSSRuleRules):
             oldMedia = self._media
             oldCssRules = self._cssRules
 
+            def reset():
+                "nothing is changed by a text which is not accepted"
+                self._media = oldMedia
+                if oldMedia is not None:
+                    oldMedia._parentRule = self
+                self._cssRules = oldCssRules
+
             ok = True
 
             # media
@@ -131,6 +138,7 @@ class CSSMediaRule(cssrule.CSSRuleRules):
 
             # check for {
             if '{' != self._tokenvalue(end):
+                reset()
                 self._log.error(
                     'CSSMediaRule: No "{" found: %s' % self._valuestr(cssText)
                 )
@@ -153,8 +161,12 @@ class CSSMediaRule(cssrule.CSSRuleRules):
                 )
 
             if '}' != self._tokenvalue(braceOrEOF):
+                ok = False
+                reset()
                 self._log.error('CSSMediaRule: No "}" found.', token=braceOrEOF)
             elif nonetoken:
+                ok = False
+                reset()
                 self._log.error(
                     'CSSMediaRule: Trailing content found.', token=nonetoken
                 )
@@ -259,8 +271,7 @@ class CSSMediaRule(cssrule.CSSRuleRules):
                     )
                 except Exception:
                     # e.g. an error raised in raising mode: reset
-                    self._media = oldMedia
-                    self._cssRules = oldCssRules
+                    reset()
                     raise
                 ok = ok and wellformed
 
@@ -273,8 +284,7 @@ class CSSMediaRule(cssrule.CSSRuleRules):
                         r._parentRule = None
                         r._parent = None
             else:
-                self._media = oldMedia
-                self._cssRules = oldCssRules
+                reset()
 
     cssText = property(
         _getCssText,
